@@ -297,6 +297,23 @@ func OidBytes(oid asn1.ObjectIdentifier) []byte {
 	return bytes.Clone(asn1bytes[2:])
 }
 
+// TryDecodeAsn1objectId decodes the raw OID bytes (excluding the tag/length) and returns
+// an error (instead of panicking) if the bytes are not a valid OID encoding.
+func TryDecodeAsn1objectId(data []byte) (oid asn1.ObjectIdentifier, err error) {
+	if len(data) < 1 || len(data) > 127 {
+		return nil, fmt.Errorf("[TryDecodeAsn1objectId] unsupported OID length (%d)", len(data))
+	}
+
+	// wrap data with ASN1 OID tag (0x06)
+	dataWithTag := append([]byte{0x06, byte(len(data))}, data...)
+
+	if rest, err := asn1.Unmarshal(dataWithTag, &oid); len(rest) > 0 || err != nil {
+		return nil, fmt.Errorf("[TryDecodeAsn1objectId] error parsing ASN1 OID (data: %x)", data)
+	}
+
+	return oid, nil
+}
+
 // decodes the raw OID bytes (excluding the tag/length)
 func DecodeAsn1objectId(data []byte) (oid asn1.ObjectIdentifier) {
 	var dataWithTag []byte
